@@ -1,9 +1,16 @@
 """Recorder for the generated autonomous-mode packages of C14."""
 LOG = []
 FAIL_CTOR = set()
+FAIL_KIND = {}       # ident -> "base": the failure is not an Exception subclass (a careless sys.exit() in user code)
+
+
+class Fatal(BaseException):
+    """Not an Exception subclass."""
 
 
 def ev(kind, ident, arg=None):
     LOG.append((kind, ident, arg))
     if kind == "ctor" and ident in FAIL_CTOR:
+        if FAIL_KIND.get(ident) == "base":
+            raise Fatal(f"injected constructor failure in {ident}")
         raise RuntimeError(f"injected constructor failure in {ident}")
